@@ -42,10 +42,14 @@ def handle (l : Line) : Option Verdict :=
     match elsOf l "els" with
     | none => .bad "els"
     | some els =>
-      if l.outStr "err" == some "1" then .diverge "unexpected-error"
+      if l.outStr "err" == some "1" then
+        verdict [("impl_model_error", (Impl.Schema.build els).isNone)]
+          [("wellformed_schema_accepted", match parseTree els with
+              | some root => !(groupsNonEmpty root)
+              | none => true)]
       else match l.outNat "n", (l.outStr "leaves").bind (parseList parseLeaf) with
       | some n, some lv =>
-        let m := Impl.Schema.buildLeaves els
+        let m := (Impl.Schema.build els).getD []
         let prop : List (String × Bool) :=
           match parseTree els with
           | some root =>
@@ -57,6 +61,7 @@ def handle (l : Line) : Option Verdict :=
   | "schema_find" => some <|
     match elsOf l "els", l.inStr "name", l.outInt "r" with
     | some els, some nm, some r =>
+      if (Impl.Schema.build els).isNone then .diverge "model-says-error" else
       let lv := Impl.Schema.buildLeaves els
       let m : Int := match Impl.Schema.findColumn els lv nm with | some i => i | none => -1
       let prop : List (String × Bool) :=
@@ -75,7 +80,7 @@ def handle (l : Line) : Option Verdict :=
     | none => .bad "cols"
     | some cols =>
       if l.outStr "err" == some "1" then .diverge "unexpected-error"
-      else match l.outNat "nel", l.outNat "n", (l.outStr "leaves").bind (parseList parseLeaf), elsOf l "els" with
+      else match l.outNat "nel", l.outNat "n", (l.outStr "leaves").bind (parseList parseLeaf), (l.outStr "els").bind (parseList parseEl) with
       | some nel, some n, some lv, some els =>
         let b := cols.foldl (fun b c => b.addColumn c.info) Impl.Schema.Builder.create
         let flat : Node := .group Impl.Schema.rootInfo (cols.map (fun c => .leaf c.info))
